@@ -346,6 +346,27 @@ var worlds = []*wdef{
 		share: 0.3,
 	},
 	{
+		// the active set keeps its SIZE while its membership changes: in one block a validator that has voted
+		// unstakes everything and the candidate stakes (or the other way round), so that "how many are active"
+		// says nothing about "who is active". 67 % of 4: three votes of validators that are active NOW are needed.
+		// (Added after a seeded change - a per-voter "is active" memo in the tally, dropped only when the number of
+		// active validators changes - escaped worlds in which a validator only ever left or joined alone.)
+		name: "swap", nVals: 4, votePct: 67,
+		prefix: seq(quiet(2), []event{ev(alleg("A", v1, v3))}),
+		alphabet: []event{
+			ev(),
+			ev(vote("A", v1, true)),
+			ev(vote("A", v2, true)),
+			ev(vote("A", v4, true)),
+			ev(vote("A", candidate, true)),
+			ev(unstake(v1, -1), stake(candidate, 1000000)), // V1 out, V5 in: same size
+			ev(unstake(v4, -1), stake(candidate, 1000000)),
+			ev(vote("A", v1, true), vote("A", v2, true)),
+		},
+		depth: map[string]int{"quick": 5, "thorough": 7},
+		share: 0.3,
+	},
+	{
 		// before any status record exists (they are first written by EndBlock(2))
 		name: "early", nVals: 4, votePct: 50,
 		prefix: nil,
